@@ -106,6 +106,37 @@ func hostileCmd(args []string) error {
 			s.emit("alpha-random", n, b, nil, false, "")
 		}
 	}
+	// skipped fields (unknown low tag) whose embedded length is a small negative number, after 0..3 leading fields:
+	// a reader that trusts it moves backwards
+	for k := 1; k <= 16; k++ {
+		for lead := 0; lead <= 3; lead++ {
+			for _, ty := range []int{tSL, tLIST, tMAP, tSTR4} {
+				var b []byte
+				for i := 0; i < lead; i++ {
+					b = append(b, mkHead(tZERO, 0)...)
+				}
+				b = append(b, mkHead(ty, 0)...)
+				switch ty {
+				case tSL:
+					b = append(append(b, mkHead(tBYTE, 0)...), mkCount(int64(-k))...)
+				case tSTR4:
+					b = append(b, 0xff, 0xff, 0xff, byte(256-k))
+				default:
+					b = append(b, mkCount(int64(-k))...)
+				}
+				b = append(b, mkHead(tZERO, 1)...)
+				for _, n := range names {
+					s.emit("neg-length", n, b, nil, false, wireName[ty])
+				}
+				rs, died, _ := s.w.call(wReq{Entry: "tup", B: b64(b)}, 20*time.Second)
+				if died != "" {
+					rs.Panic = died
+				}
+				bw.Write(bigRec{K: "entry", Cls: "neg-length", S: "tup", Desc: fmt.Sprint(b), BLen: len(b), Ok: rs.Ok, Panic: rs.Panic})
+				nbig++
+			}
+		}
+	}
 	// (iv) plain random bytes
 	for i := 0; i < *nrand; i++ {
 		b := make([]byte, s.rng.Intn(64))
@@ -136,8 +167,12 @@ func hostileCmd(args []string) error {
 	pats := []pat{
 		{"n nested StructBegin under an unknown tag 13", func(n int) []byte { return rep([]byte{0xda}, n, nil) }},
 		{"n nested StructBegin, closed", func(n int) []byte { return append(rep([]byte{0xda}, n, nil), bytes.Repeat([]byte{0x0b}, n)...) }},
-		{"n nested LIST(1) under an unknown tag 13", func(n int) []byte { return append([]byte{0xd9, 0x00, 0x01}, rep([]byte{0x09, 0x00, 0x01}, n, []byte{0x0c})...) }},
-		{"n nested MAP(1) keys under an unknown tag 13", func(n int) []byte { return append([]byte{0xd8, 0x00, 0x01}, rep([]byte{0x08, 0x00, 0x01}, n, []byte{0x0c, 0x1c})...) }},
+		{"n nested LIST(1) under an unknown tag 13", func(n int) []byte {
+			return append([]byte{0xd9, 0x00, 0x01}, rep([]byte{0x09, 0x00, 0x01}, n, []byte{0x0c})...)
+		}},
+		{"n nested MAP(1) keys under an unknown tag 13", func(n int) []byte {
+			return append([]byte{0xd8, 0x00, 0x01}, rep([]byte{0x08, 0x00, 0x01}, n, []byte{0x0c, 0x1c})...)
+		}},
 		{"n nested StructBegin at tag 0", func(n int) []byte { return rep([]byte{0x0a}, n, nil) }},
 		{"n zero-marker fields at tag 13", func(n int) []byte { return rep([]byte{0xdc}, n, nil) }},
 		{"n nested StructBegin at tag 14 (Opts.inn / unknown)", func(n int) []byte { return rep([]byte{0xea}, n, nil) }},
